@@ -1128,8 +1128,10 @@ func (up4 *UP4) configureMeters(qers []qer) error {
 }
 
 func verifyPDR(pdr pdr) error {
-	if pdr.precedence > math.MaxUint16 {
-		return ErrUnsupported("precedence greater than 65535", pdr.precedence)
+	// the applications table has ternary/range fields, so P4Runtime requires a
+	// non-zero priority: MaxUint16 - precedence must stay above 0
+	if pdr.precedence >= math.MaxUint16 {
+		return ErrUnsupported("precedence greater than 65534", pdr.precedence)
 	}
 
 	return nil
